@@ -24,7 +24,8 @@ Next == UNCHANGED r
 Spec == Init /\ [][Next]_r
 
 Ref(x) == Refuses(x.surface, x.kind, x.form, x.audit, x.absent, x.lim, x.tids, x.st, Ops[x.op], x.rt, x.managed)
-DesignOK == PassOK(r.surface, r.kind, r.form, r.audit, r.absent, r.lim, r.tids, r.st, Ops[r.op], r.rt, r.managed)
+DesignOK == /\ PassOK(r.surface, r.kind, r.form, r.audit, r.absent, r.lim, r.tids, r.st, Ops[r.op], r.rt, r.managed)
+            /\ MustInMay(r.surface, r.kind, r.form, r.audit, r.absent, r.lim, r.tids, r.st, Ops[r.op], r.rt, r.managed)
 \* the same limit is never refused on one spelling and meant differently on another: a passed limit means min(limit', 1000)
 LimitMeaning == (~Ref(r) /\ r.kind # "ids" /\ ~r.absent /\ r.lim > 0) => WireLimit(r.absent, r.lim) = (IF r.lim > 1000 THEN 1000 ELSE r.lim)
 =============================================================================
